@@ -690,9 +690,14 @@ class Fxp():
             if set_inaccuracy and val.status['inaccuracy']:
                 self.status['inaccuracy'] = True
 
-            # force return raw value for better precision
-            val = utils.scale_raw(val.val, self.n_frac - val.n_frac)
-            raw = True
+            if val.scaled or (self.scale is not None and self.bias is not None and (self.bias != 0 or self.scale != 1)):
+                # scaled source or destination: its value (not its raw code) is what is converted by the scaling below
+                val = val.get_val()
+                raw = False
+            else:
+                # force return raw value for better precision
+                val = utils.scale_raw(val.val, self.n_frac - val.n_frac)
+                raw = True
 
         elif isinstance(val, (int, float, complex)):
             vdtype = type(val)
